@@ -32,6 +32,27 @@ PROPS["C08"] = dict(
                  "Kani's 'NaN on addition/multiplication' check class is ignored: producing NaN is defined f64 behaviour the property requires"],
 )
 
+
+PROPS["C01"] = dict(
+    hosts={"root": ["c01.rs"]},
+    cfgs=["prometheus_verif_sync"],
+    env={"PROMETHEUS_VERIF_K": "3"},
+    jobs=6,
+    harnesses={
+        "c01_float_inc_flush_read": dict(cap=900),
+        "c01_int_inc_flush_read": dict(cap=900),
+        "c01_float_two_writers": dict(cap=600),
+        "c01_int_reset": dict(cap=600),
+    },
+    functions=["AtomicF64::inc_by (load / compare_exchange_weak loop)", "AtomicF64::get", "AtomicU64::inc_by (fetch_add)", "AtomicU64::get/set",
+               "Value::inc_by/inc/get/set", "GenericCounter::inc_by/inc/get/reset/local", "GenericLocalCounter::inc_by/flush"],
+    bounds="3 threads, <= 3 operations each, K = 3 rounds (<= 2 pre-emptions per thread, round-robin), increments any u8 (exact in f64), unwind 6",
+    outside="more than K-1 pre-emptions per thread, more threads/operations; weak-memory effects (SC per location and RMW atomicity are all the property needs and hold for every ordering)",
+    assumptions=["shared atomics replaced by crate::verif_sync (K-version cells; Lal-Reps sequentialisation) through the cfg(prometheus_verif_sync) hook",
+                 "compare_exchange_weak modelled as strong; a failed CAS repeated in the same round by the same thread is pruned as a stutter step",
+                 "Desc::new stubbed (descriptor not the subject)"],
+)
+
 # ------------------------------------------------------------------------------------------------
 MANIFEST_TEXT = {}
 MANIFEST_TEXT["C08"] = dict(
